@@ -27,6 +27,10 @@ func (source *SR) NewTransform(dest *SR) (Transformer, error) {
 	}
 
 	return func(x, y float64) (float64, float64, error) {
+		// The workaround below replaces the source for the rest of this call
+		// only: assigning to the captured variable would make every later call
+		// start from WGS84 instead of from the original source.
+		source := source
 		point := []float64{x, y}
 		// Workaround for datum shifts towgs84, if either source or destination projection is not wgs84
 		if checkNotWGS(source, dest) || checkNotWGS(dest, source) {
